@@ -99,6 +99,14 @@ class Contract:
         self.uses.append(f)
         return self
 
+    def after(self, name, f, ordinal=None):
+        """ghost lemma: after the (ordinal-th, in source order; None = every) assignment to local `name`, prove the clauses
+        f(view) -> [(name, formula|Forall)] in the context of that program point, then keep them as facts"""
+        if not hasattr(self, "afters") or self.afters is None:
+            self.afters = {}
+        self.afters.setdefault(name, []).append((ordinal, f))
+        return self
+
 
 def contract(qualname, **kw):
     return Contract(qualname, **kw)
@@ -277,7 +285,7 @@ TSeq.empty = _tseq_empty
 class TAObj(Type):
     def __init__(self, clsname, sort=None):
         self.clsname = clsname
-        self.sort = sort or Ref
+        self.sort = Ref if sort is None else sort
 
     def fresh(self, ctx, name):
         return AObj(self.clsname, ctx.fresh(name, self.sort))
